@@ -2660,6 +2660,12 @@ setattr_delegate(
         }
 
         if (traitd->delegate_attr_name == NULL) {
+            /* 'delegate' and 'traitd' are borrowed references: keep both
+               alive while the setter runs (a default method, validator or
+               handler called from it may re-bind the delegate attribute and
+               thereby release the delegate and its instance traits). */
+            Py_INCREF(delegate);
+            Py_INCREF(traitd);
             if (traito->flags & TRAIT_MODIFY_DELEGATE) {
                 result =
                     traitd->setattr(traitd, traitd, delegate, daname, value);
@@ -2678,6 +2684,8 @@ setattr_delegate(
                     }
                 }
             }
+            Py_DECREF(traitd);
+            Py_DECREF(delegate);
             Py_DECREF(daname);
 
             return result;
